@@ -522,6 +522,10 @@ where
     }
 }
 
+#[cfg(all(test, feature = "mocks", feature = "verif-hooks"))]
+#[path = "checkout_verif_replays.rs"]
+mod verif_replays;
+
 #[cfg(test)]
 mod test {
     use super::*;
